@@ -40,6 +40,10 @@ def run(tier):
             steps.append({"op": "names"})
             jobs.append({"cfg": {"prefixes": ["p/"]}, "steps": steps})
             meta.append((vi, [n for n, _ in tpls]))
+        if not v["ok"] and vi % 3 == 0:
+            # a refused batch that names a template twice (an innocent first version, then the real one): still nothing stays
+            jobs.append({"cfg": {"prefixes": ["p/"]}, "steps": [{"op": "add", "tpls": [[tpls[0][0], "L" + tpls[0][0] + ";first version"], [tpls[-1][0], "another first version"]] + tpls}, {"op": "names"}]})
+            meta.append((vi, [n for n, _ in tpls]))
     # include graphs with several include edges per template (MC_IncGraph): diamonds, back edges behind explored siblings
     nn = 3 if tier == "quick" else 4
     with open(vp.SPEC + "/MC_IncGraph_run.cfg", "w") as f:
